@@ -443,6 +443,19 @@ impl<R: Round, const B: Word> FBig<R, B> {
             return Inexact(self.sign() * f32::INFINITY, Rounding::NoOp);
         }
 
+        // an exponent beyond the range of the target decides the result on its own; deciding it here keeps every
+        // later `isize` computation on the exponent (base conversion, rounding, normalization) in range
+        match self.repr.exponent_out_of_range(128, -149 - 24) {
+            Some(true) => {
+                return match self.sign() {
+                    Sign::Positive => Inexact(f32::INFINITY, Rounding::AddOne),
+                    Sign::Negative => Inexact(f32::NEG_INFINITY, Rounding::SubOne),
+                }
+            }
+            Some(false) => return Inexact(self.sign() * 0f32, Rounding::NoOp),
+            None => {}
+        }
+
         let context = Context::<R>::new(24);
         if B != 2 {
             let rounded: Rounded<Repr<2>> = context.convert_base(self.repr.clone());
@@ -472,6 +485,19 @@ impl<R: Round, const B: Word> FBig<R, B> {
     pub fn to_f64(&self) -> Rounded<f64> {
         if self.repr.is_infinite() {
             return Inexact(self.sign() * f64::INFINITY, Rounding::NoOp);
+        }
+
+        // an exponent beyond the range of the target decides the result on its own; deciding it here keeps every
+        // later `isize` computation on the exponent (base conversion, rounding, normalization) in range
+        match self.repr.exponent_out_of_range(1024, -1074 - 53) {
+            Some(true) => {
+                return match self.sign() {
+                    Sign::Positive => Inexact(f64::INFINITY, Rounding::AddOne),
+                    Sign::Negative => Inexact(f64::NEG_INFINITY, Rounding::SubOne),
+                }
+            }
+            Some(false) => return Inexact(self.sign() * 0f64, Rounding::NoOp),
+            None => {}
         }
 
         let context = Context::<HalfEven>::new(53);
@@ -588,6 +614,20 @@ impl<R: Round> Context<R> {
 }
 
 impl<const B: Word> Repr<B> {
+    // `Some(true)`: the magnitude is at least `2^max_exp` (`|significand| >= 1`, `B >= 2`); `Some(false)`: it is below
+    // `2^min_exp` (`|significand| < 2^bit_len`, and `B^exponent <= 2^exponent` for a negative exponent).
+    fn exponent_out_of_range(&self, max_exp: isize, min_exp: isize) -> Option<bool> {
+        if self.significand.is_zero() {
+            None
+        } else if self.exponent >= max_exp {
+            Some(true)
+        } else if self.exponent < 0 && self.exponent < min_exp - self.significand.bit_len() as isize {
+            Some(false)
+        } else {
+            None
+        }
+    }
+
     // this method requires that the representation is already rounded to 24 binary bits
     fn into_f32_internal(self) -> Rounded<f32> {
         assert!(B == 2);
@@ -633,6 +673,19 @@ impl<const B: Word> Repr<B> {
 
         if self.is_infinite() {
             return Inexact(self.sign() * f32::INFINITY, Rounding::NoOp);
+        }
+
+        // an exponent beyond the range of the target decides the result on its own; deciding it here keeps every
+        // later `isize` computation on the exponent (base conversion, rounding, normalization) in range
+        match self.exponent_out_of_range(128, -149 - 24) {
+            Some(true) => {
+                return match self.sign() {
+                    Sign::Positive => Inexact(f32::INFINITY, Rounding::AddOne),
+                    Sign::Negative => Inexact(f32::NEG_INFINITY, Rounding::SubOne),
+                }
+            }
+            Some(false) => return Inexact(self.sign() * 0f32, Rounding::NoOp),
+            None => {}
         }
 
         let context = Context::<HalfEven>::new(24);
@@ -691,6 +744,19 @@ impl<const B: Word> Repr<B> {
 
         if self.is_infinite() {
             return Inexact(self.sign() * f64::INFINITY, Rounding::NoOp);
+        }
+
+        // an exponent beyond the range of the target decides the result on its own; deciding it here keeps every
+        // later `isize` computation on the exponent (base conversion, rounding, normalization) in range
+        match self.exponent_out_of_range(1024, -1074 - 53) {
+            Some(true) => {
+                return match self.sign() {
+                    Sign::Positive => Inexact(f64::INFINITY, Rounding::AddOne),
+                    Sign::Negative => Inexact(f64::NEG_INFINITY, Rounding::SubOne),
+                }
+            }
+            Some(false) => return Inexact(self.sign() * 0f64, Rounding::NoOp),
+            None => {}
         }
 
         let context = Context::<HalfEven>::new(53);
